@@ -1,7 +1,12 @@
 from simkit import runner as _R
 from . import cache_sim as _cache
 from . import registry_sim as _registry
+from . import weaver_sim as _weaver
+from . import noise_sim as _noise
 
 _R.register("cache", _cache)
 _R.register("registry", _registry)
-ENGINE_OF = {"C19": "cache", "C18": "registry"}
+_R.register("noise", _noise)
+for _p, _e in _weaver.ENGINES.items():
+    _R.register("weaver-" + _p.lower(), _e)
+ENGINE_OF = {"C19": "cache", "C18": "registry", "C08": "weaver-c08", "C09": "weaver-c09", "C20": "weaver-c20", "C15": "noise"}
